@@ -17,8 +17,8 @@
 From Coq Require Import String.
 From Coq Require Import List ZArith.
 From W.lib Require Import Tree Bytes GoSlice Reader.
-From W.model Require Import DecPrim DecLists DecObjects DecPack DecReceive DecRun.
-From W.proofs Require Import DecLists_proofs DecTop_proofs DecReceive_proofs.
+From W.model Require Import DecPrim DecLists DecObjects DecPack DecReceive DecJson DecRun.
+From W.proofs Require Import DecLists_proofs DecTop_proofs DecReceive_proofs DecJson_proofs.
 Local Open Scope N_scope.
 
 (** ** C17_total / C17_terminates for the validators (pure functions of the byte slice):
@@ -189,6 +189,18 @@ Theorem C17_receive_total :
 Proof. exact DecReceive_proofs.receive_total. Qed.
 Print Assumptions C17_receive_total.
 
+(** The guard "every primary-key index < number of columns" of IndexTable is what the previous
+    theorem rests on (slice.IndicesToValues is an explicit index in the model): with the weaker
+    "largest index <= number of columns", pk = [2] over 2 columns passes the guard and the loop of
+    IndexTable panics on a well-formed one-row block. *)
+Theorem C17_pk_guard_refuted :
+  pk_out_of_range (length (tb_columns pkw_table)) (tb_pk pkw_table) = true /\
+  pk_out_of_range_weak (length (tb_columns pkw_table)) (tb_pk pkw_table) = false /\
+  fst (fst (index_blocks (fun b => Some b) (fun _ _ => []) precap_of_code no_faults
+                         pkw_store pkw_table (tb_blocks pkw_table) 0 0)) = Panic.
+Proof. exact DecReceive_proofs.pk_weak_guard_panics. Qed.
+Print Assumptions C17_pk_guard_refuted.
+
 Theorem C17_reject_clean_empty :
   forall (unz : bytes -> option bytes) (parse_int parse_tz : bytes -> option Z) (pc : precap),
   closed unz parse_int parse_tz pc empty_store.
@@ -269,6 +281,20 @@ Theorem C17_get_nil_object_refuted : forall parse_int parse_tz : bytes -> option
   fst (get_table precap_of_code false (Some [])) = Panic.
 Proof. exact DecReceive_proofs.get_nil_object_panics. Qed.
 Print Assumptions C17_get_nil_object_refuted.
+
+(** ** JSON replies of a remote: payload.Hex.UnmarshalJSON, through which every sum of a reply
+    goes, never panics, whatever bytes encoding/json hands it ... *)
+Theorem C17_hex_json_no_panic : forall b : bytes, hex_unmarshal true b <> Panic.
+Proof. exact DecJson_proofs.hex_unmarshal_no_panic. Qed.
+Print Assumptions C17_hex_json_no_panic.
+
+(** ... while the function before fix 7e27cd0 panicked on the number 1 (reply {"acks":[1]}: slice
+    bounds) and on a 34-digit hex string (index 16 of the 16-byte array) *)
+Theorem C17_hex_json_refuted :
+  hex_unmarshal false [49] = Panic /\
+  hex_unmarshal false (quote :: repeat 48 34 ++ [quote]) = Panic.
+Proof. exact DecJson_proofs.hex_unmarshal_unchecked_panics. Qed.
+Print Assumptions C17_hex_json_refuted.
 
 (** Non-vacuity: a valid one-row block decodes (and is within the allocation bound); the
     robustness statements are about all inputs, this shows the Ok branch is inhabited. *)
